@@ -282,6 +282,19 @@ func (b *Batch) Compile(needUnopt bool) bool {
 		}
 		out, err := b.run(10*time.Minute, b.Dir, "go", "build", "-gcflags=-e", "-o", "run", ".")
 		if err == nil {
+			// side-effect imports of the source files must still be there (their effect, the
+			// initialisation of the imported package, cannot be observed inside one binary
+			// that also links the reference package: the import spec itself is compared)
+			for _, d := range droppedBlankImports(b.Dir, b.Prog.Pkg) {
+				fn := b.Prog.ExternOf(d.file)
+				for _, f := range b.Prog.Files {
+					if f.Name == d.file && len(f.Funcs) > 0 {
+						fn = f.Funcs[0].Name
+					}
+				}
+				b.Gate = append(b.Gate, GateFailure{Func: fn, Stage: "side-effect-import", Files: filesOf(b.Prog),
+					Msg: fmt.Sprintf("side-effect import _ %q of %s is missing in the generated file (%s)", d.path, d.file, d.stage)})
+			}
 			return true
 		}
 		culprits := map[string]GateFailure{}
@@ -551,6 +564,50 @@ func (b *Batch) runWith(sp driver.Spec, timeout time.Duration, strict bool) (*dr
 		ev.Infra("batch run binary printed no result: %v\n%s", err, firstLines(string(out), 10))
 	}
 	return &res, nil
+}
+
+type droppedImport struct{ file, path, stage string }
+
+// droppedBlankImports compares the blank imports of every source file with those of the
+// generated files (optimised and unoptimised stage) of the same name.
+func droppedBlankImports(dir, pkg string) (out []droppedImport) {
+	blank := func(path string) map[string]bool {
+		f, err := parser.ParseFile(token.NewFileSet(), path, nil, parser.ImportsOnly)
+		if err != nil {
+			return nil
+		}
+		m := map[string]bool{}
+		for _, im := range f.Imports {
+			if im.Name != nil && im.Name.Name == "_" {
+				p, _ := strconv.Unquote(im.Path.Value)
+				m[p] = true
+			}
+		}
+		return m
+	}
+	ents, _ := os.ReadDir(filepath.Join(dir, "src", pkg))
+	for _, e := range ents {
+		want := blank(filepath.Join(dir, "src", pkg, e.Name()))
+		for _, stage := range []string{"opt", "unopt"} {
+			gen := filepath.Join(dir, stage, pkg, e.Name())
+			if _, err := os.Stat(gen); err != nil {
+				continue
+			}
+			have := blank(gen)
+			paths := make([]string, 0, len(want))
+			for p := range want {
+				paths = append(paths, p)
+			}
+			sort.Strings(paths)
+			for _, p := range paths {
+				if !have[p] && p != "github.com/goghcrow/go-co" {
+					out = append(out, droppedImport{e.Name(), p, stage})
+					break
+				}
+			}
+		}
+	}
+	return
 }
 
 // lastPart drops the progress lines in front of what a dying run binary printed.
